@@ -22,7 +22,10 @@ TIERS = {
 }
 RULE = ("one evaluation = one seeded configuration (object type complex/pure_phase/potential, 1-2 "
         "slices, 1-2 probe modes, optimizer sgd/sgd+momentum/adam/adamw x lr, optimised subset of "
-        "{object, probe, dataset}, scheduler none/exp/linear/cyclic/plateau, constraints, snapshots, "
+        "{object, probe, dataset}, optimizer hyper-parameters (momentum, nesterov, dampening, betas, "
+        "amsgrad, weight_decay, eps), scheduler none/exp/linear/cyclic/plateau with sub-options "
+        "(cyclic mode and momentum cycling, plateau patience/cooldown/factor, linear factors), "
+        "constraints, snapshots, first segments of up to 110 iterations, "
         "store zip/dir, compression level, I/O schedule) of a tiny ptychography problem built TWICE: "
         "U runs uninterrupted, R receives the same reconstruct calls interleaved with 2-5 "
         "interruptions (save with data + restart + from_file | clone | clone with failing deepcopy "
